@@ -74,6 +74,7 @@ func c15decode(r *vx.R, c c15dcase) {
 func TestVX_C15_Encoding(t *testing.T) {
 	r := vx.Begin("C15", "point-encoding", "SM2Point.SetBytes on: every length 0..70 (zeros / seeded / prefix of a valid encoding), every first byte 0..255 at lengths 1, 33, 65 (with valid coordinates behind it), x or y in {p, p+1, 2^256-1, x+p where it fits}, every single-bit flip of valid 65-byte encodings (520 each), valid encodings of the point alphabet; oracle: strict decoding rule + curve equation in math/big; on error the receiver must be unchanged; plus public-API arithmetic on naturally arising representatives (results of Add/Double/ScalarMult) against the affine group law")
 	defer r.End()
+	defer implSeamReport(r)
 	if err := refs.SelfCheck(false); err != nil {
 		panic("reference self-check failed (harness broken): " + err.Error())
 	}
@@ -265,6 +266,7 @@ func c15peval(r *vx.R, c c15pcase, pts map[string]sm2ref.Point) {
 func TestVX_C15_PublicArith(t *testing.T) {
 	r := vx.Begin("C15", "point-arith-public", "public-API twin of point-arith (kept when the in-package seam is lost): Add/Double/Negate over the point alphabet squared with representatives that arise naturally (decoded Z=1, P+O, [1]P via ScalarMult, (P+G)-G); oracle affine group law; Bytes==Bytes_Unsafe, GetAffineX==GetAffineX_Unsafe on every result")
 	defer r.End()
+	defer implSeamReport(r)
 	pts := c14points()
 	if raw, ok := vx.Replay("point-arith-public"); ok {
 		var c c15pcase
